@@ -17,13 +17,14 @@ type Config struct {
 	cacheMu *sync.RWMutex
 }
 
-// SetCachedSource records template source for use by {% include %}.
+// SetCachedSource records a copy of template source for use by {% include %}
+// (the caller remains free to reuse its buffer).
 func (c *Config) SetCachedSource(path string, source []byte) {
 	if c.cacheMu != nil {
 		c.cacheMu.Lock()
 		defer c.cacheMu.Unlock()
 	}
-	c.Cache[path] = source
+	c.Cache[path] = append([]byte(nil), source...)
 }
 
 // CachedSource returns template source recorded by SetCachedSource.
